@@ -153,7 +153,7 @@ def run(rep, wd, tier, seed):
     for codec in isocheck.CODECS_QUICK:
         jobs.append((seed, ('pkg',), codec, 'sweep', tier, 0))
     nrand = 2500 if tier == 'thorough' else 150
-    cfgs = [('pkg',), ('pkgvar', 0), ('pkgvar', 1)] + [('gen', seed * 100 + i) for i in range(6 if tier == 'thorough' else 2)]
+    cfgs = [('pkg',), ('pkgvar', 0), ('pkgvar', 1), ('pkgshuf', seed % 3)] + [('gen', seed * 100 + i) for i in range(6 if tier == 'thorough' else 2)]
     for cfgspec in cfgs:
         for codec in ((tuple(codecs) + (isocheck.CODECS_EXTRA if tier == 'quick' else ())) if cfgspec[0] == 'pkg' else isocheck.CODECS_QUICK):
             n = nrand if codec in isocheck.CODECS_QUICK else max(40, nrand // 10)
